@@ -1,4 +1,5 @@
 CONSTANT L = 1
+CONSTANT RemFoldAll = TRUE
 CONSTANT CheckRemCommit = TRUE
 SPECIFICATION Spec
 INVARIANT Sound
